@@ -300,6 +300,8 @@ def run_cond(c: Cond) -> CondResult:
     cmd = [PY, "-m", "crosshair", "check", "--report_all",
            "--per_condition_timeout", str(c.timeout),
            "--per_path_timeout", str(max(10, c.timeout // 4)),
+           # the model holder is built by the real SQLDataHolder constructor, which opens a throw-away in-memory engine
+           "--unblock", "sqlite3.connect", "sqlite3.connect/handle", "--report_all",
            f"{c.module}:{line}"]
     t0 = time.time()
     try:
